@@ -77,7 +77,7 @@ pub struct PlayCase {
 }
 
 pub fn play_strategy(max_plies: usize) -> impl Strategy<Value = PlayCase> {
-    (any::<u16>(), prop::collection::vec(any::<u16>(), 0..=max_plies))
+    (0u16..(START_FENS.len() as u16), prop::collection::vec(any::<u16>(), 0..=max_plies))
         .prop_map(|(start, picks)| PlayCase { start, picks })
 }
 
@@ -131,7 +131,8 @@ pub struct Played {
 }
 
 pub fn play(starts: &[Pos], case: &PlayCase) -> Played {
-    let start = starts[pick_index(case.start, starts.len())].clone();
+    // direct index (stable when start positions are appended to the corpus)
+    let start = starts[case.start as usize % starts.len()].clone();
     let mut positions = vec![start];
     let mut moves = vec![];
     for pick in case.picks.iter() {
